@@ -464,6 +464,20 @@ pub fn lex_menus() -> Vec<(&'static str, Vec<Row>, Vec<char>)> {
 }
 
 pub fn lex_bigram(k: usize, nr: usize, nl: usize) -> Bigram {
+    lex_bigram_scaled(k, nr, nl, 1)
+}
+
+/// Same model with every cost multiplied by `scale` (costs beyond the 16-bit range for the
+/// raw connector; single costs stay below 2^15 for scale <= 500).
+pub fn lex_bigram_scaled(k: usize, nr: usize, nl: usize, scale: i32) -> Bigram {
+    let mut b = lex_bigram_unit(k, nr, nl);
+    for c in b.cost.iter_mut() {
+        c.2 *= scale;
+    }
+    b
+}
+
+fn lex_bigram_unit(k: usize, nr: usize, nl: usize) -> Bigram {
     // feature strings depend on (id, position) so that different ids share some strings
     let feat = |side: char, id: usize, p: usize| -> String {
         match (id + p) % 4 {
@@ -540,14 +554,29 @@ pub fn u_lex(tier: Tier) -> Vec<Universe> {
             let (nr, nl, t) = b.table();
             conns.push((format!("{kind:?}K{k}"), nr, nl, t, kind, Some(b)));
         }
+        // connection costs far outside the 16-bit range (raw), sums outside it (dual), and
+        // non-square id spaces for the compact connectors
+        for (k, kind, nr, nl, scale) in [
+            (3usize, ConnKind::Raw, 3usize, 3usize, 1500i32),
+            (9, ConnKind::Dual, 3, 3, 500),
+            (3, ConnKind::Raw, 5, 3, 700),
+            (3, ConnKind::Raw, 3, 5, 1),
+            (9, ConnKind::Dual, 5, 3, 1),
+        ] {
+            let b = lex_bigram_scaled(k, nr, nl, scale);
+            let (nr, nl, t) = b.table();
+            conns.push((format!("{kind:?}K{k}x{scale}/{nr}x{nl}"), nr, nl, t, kind, Some(b)));
+        }
         for (cname, nr, nl, conn, kind, bigram) in conns {
             for with_user in [false, true] {
                 for mapped in [false, true] {
+                    // ids are spread over the whole id space when it is larger than 3x3
                     let sys: Vec<Row> = rows
                         .iter()
-                        .map(|r| Row {
-                            left: r.left % nl as u16,
-                            right: r.right % nr as u16,
+                        .enumerate()
+                        .map(|(i, r)| Row {
+                            left: if nl > 3 { (1 + (usize::from(r.left) + i) % (nl - 1)) as u16 } else { r.left % nl as u16 },
+                            right: if nr > 3 { (1 + (usize::from(r.right) + 2 * i) % (nr - 1)) as u16 } else { r.right % nr as u16 },
                             ..r.clone()
                         })
                         .collect();
